@@ -13,6 +13,7 @@ import (
 	"sync/atomic"
 	"syscall"
 	"time"
+	"unicode/utf8"
 
 	"golang.org/x/sys/unix"
 
@@ -72,6 +73,8 @@ type c08Case struct {
 	Symlinks    string               `json:"symlinks"`
 	Patterns    []string             `json:"patterns"`
 	CrossDevice bool                 `json:"staging_on_other_device"`
+	TwoScans    string               `json:"second_scan,omitempty"`
+	ChmodBefore map[string]string    `json:"chmod_between_first_and_second_scan,omitempty"`
 	Tree        []string             `json:"tree,omitempty"`
 	Plan        []*plannedTransition `json:"plan"`
 	Obstacles   []string             `json:"read_only_directories,omitempty"`
@@ -102,7 +105,7 @@ func c08() {
 	if r.Counter("clean_transitions_verified_done") == 0 {
 		r.Inconclusive("no non-interfered transition was verified (sanity)")
 	}
-	r.Finish("random disk trees scanned by the real core.Scan; plans of 1..6 disjoint transitions built from the snapshot (remove file/link/directory, swap file content or executability with staged content from a harness Provider on the same or another device, kind changes, creations); 0..3 interferences between scan and transition (in-place edit with unique token and mtime bump, same-size edit, chmod, replacement by a new inode of identical size/mtime/mode, link retarget, new child in a directory scheduled for removal, file replaced by directory, object appearing at a planned creation path) plus pre-existing unsynchronizable content; real core.Transition as root and as uid 65534 (there with read-only directories); afterwards each interfered object is re-observed (lstat, sha1, readlink, recursive listing) and the problems are searched for its path; transitions without interference must report and reach their target (root runs); distinct = (uid, transition kind, interference kind, depth below the transition root, staging device)", 40)
+	r.Finish("random disk trees scanned by the real core.Scan; plans of 1..6 disjoint transitions built from the snapshot (remove file/link/directory, swap file content or executability with staged content from a harness Provider on the same or another device, kind changes, creations); 0..3 interferences between scan and transition (in-place edit with unique token and mtime bump, same-size edit, chmod, replacement by a new inode of identical size/mtime/mode, link retarget, new child (also with a .mutagen-temporary- name) in a directory scheduled for removal, chmod back to the mode an earlier scan saw (scan1; chmod; scan2 re-using scan1's cache; plan from scan2; chmod back), file replaced by directory, object appearing at a planned creation path) plus pre-existing unsynchronizable or unlisted (temporary-named) content; real core.Transition as root and as uid 65534 (there with read-only directories); afterwards each interfered object is re-observed (lstat, sha1, readlink, recursive listing) and the problems are searched for its path; transitions without interference must report and reach their target (root runs); distinct = (uid, transition kind, interference kind, depth below the transition root, staging device)", 40)
 }
 
 func c08Cases(out rec, run *vk.Run, dir, shm string, unpriv bool) {
@@ -155,7 +158,7 @@ func c08One(out rec, rng *rand.Rand, index int, base, sbase string, unpriv bool)
 	prov := &stagingProvider{dir: stagingDir}
 
 	tree := fsx.RandomTree(rng, fsx.TreeConfig{MaxEntries: 8 + rng.Intn(40), MaxDepth: 1 + rng.Intn(4), MaxFileSize: 8 << 10,
-		Links: true, Fifos: rng.Intn(2) == 0, NonUTF8: rng.Intn(4) == 0, Temporaries: false})
+		Links: true, Fifos: rng.Intn(2) == 0, NonUTF8: rng.Intn(4) == 0, Temporaries: rng.Intn(3) == 0})
 	if err := fsx.Materialize(root, tree); err != nil {
 		out.Inconclusive("tree could not be materialized")
 		return
@@ -166,6 +169,54 @@ func c08One(out rec, rng *rand.Rand, index int, base, sbase string, unpriv bool)
 	if err != nil || st.Snapshot.Content == nil || st.Snapshot.Content.Kind != core.EntryKind_Directory {
 		out.Inconclusive("scan before the plan failed")
 		return
+	}
+	// Multi-scan sequence: scan1 (above); chmod some files without touching
+	// their content; scan2 re-using scan1's digest cache (and possibly scan1 as
+	// baseline). The plan is built from scan2. Later the files are chmod-ed
+	// back, so they differ from what scan2 recorded but equal what scan1 did.
+	modeBefore := map[string]uint32{}
+	if rng.Intn(3) == 0 {
+		var files []string
+		for p, e := range st.Cache.Entries {
+			if p != "" && e != nil {
+				files = append(files, p)
+			}
+		}
+		sort.Strings(files)
+		rng.Shuffle(len(files), func(i, j int) { files[i], files[j] = files[j], files[i] })
+		recheck := map[string]bool{}
+		for _, p := range files {
+			if len(modeBefore) >= 5 {
+				break
+			}
+			var lst syscall.Stat_t
+			if syscall.Lstat(fullPath(root, p), &lst) != nil {
+				continue
+			}
+			bit := []uint32{0o100, 0o010, 0o001, 0o020, 0o002, 0o040, 0o004}[rng.Intn(7)]
+			if os.Chmod(fullPath(root, p), os.FileMode((lst.Mode&0o777)^bit)) == nil {
+				modeBefore[p] = lst.Mode & 0o777
+				recheck[p] = true
+			}
+		}
+		if len(modeBefore) > 0 {
+			c.ChmodBefore = map[string]string{}
+			for p, m := range modeBefore {
+				c.ChmodBefore[p] = fmt.Sprintf("%o at scan1, one bit flipped before scan2", m)
+			}
+			prev := &fsx.ScanState{Cache: st.Cache, IgnoreCache: st.IgnoreCache}
+			c.TwoScans = "scan2 with scan1's digest cache, no baseline"
+			if rng.Intn(2) == 0 {
+				prev.Snapshot = st.Snapshot
+				c.TwoScans = "scan2 with scan1 as baseline and its digest cache, chmod-ed paths as recheck paths"
+			}
+			st2, err := fsx.Accelerated(root, scfg, prev, recheck)
+			if err != nil || st2.Snapshot.Content == nil || st2.Snapshot.Content.Kind != core.EntryKind_Directory {
+				out.Inconclusive("second scan before the plan failed")
+				return
+			}
+			st = st2
+		}
 	}
 	snap := st.Snapshot.Content
 
@@ -189,6 +240,19 @@ func c08One(out rec, rng *rand.Rand, index int, base, sbase string, unpriv bool)
 		}
 	})
 	rng.Shuffle(len(cands), func(i, j int) { cands[i], cands[j] = cands[j], cands[i] })
+	if len(modeBefore) > 0 { // candidates that contain a chmod-ed file go first
+		sort.SliceStable(cands, func(i, j int) bool {
+			has := func(c cand) bool {
+				for p := range modeBefore {
+					if atOrBelow(p, c.path) {
+						return true
+					}
+				}
+				return false
+			}
+			return has(cands[i]) && !has(cands[j])
+		})
+	}
 	want := 1 + rng.Intn(6)
 	var plan []*plannedTransition
 	disjoint := func(p string) bool {
@@ -321,6 +385,29 @@ func c08One(out rec, rng *rand.Rand, index int, base, sbase string, unpriv bool)
 
 	// ---- interference between scan and transition
 	used := map[string]bool{}
+	{
+		var ps []string
+		for p := range modeBefore {
+			ps = append(ps, p)
+		}
+		sort.Strings(ps)
+		for _, p := range ps {
+			e := entryAt(snap, p)
+			if e == nil || e.Kind != core.EntryKind_File {
+				continue
+			}
+			for _, t := range plan {
+				if t.change.Old != nil && atOrBelow(p, t.Path) {
+					t.touched = true
+					if os.Chmod(fullPath(root, p), os.FileMode(modeBefore[p])) == nil {
+						used[p] = true
+						t.Interf = append(t.Interf, interference{Kind: "chmod-back-to-mode-of-earlier-scan", Path: p, After: observe(fullPath(root, p))})
+						out.Count("interference:chmod-back-to-mode-of-earlier-scan", 1)
+					}
+				}
+			}
+		}
+	}
 	nInterf := rng.Intn(4)
 	if index%5 == 0 {
 		nInterf = 0 // keep a share of completely clean plans for the sanity check
@@ -336,6 +423,9 @@ func c08One(out rec, rng *rand.Rand, index int, base, sbase string, unpriv bool)
 				t.Interf = append(t.Interf, *it)
 				nInterf--
 				out.Count("interference:"+it.Kind, 1)
+				if it.Kind == "retarget-link" {
+					out.Count("interference:retarget-link|"+c.Symlinks, 1)
+				}
 			}
 		}
 	}
@@ -361,6 +451,48 @@ func c08One(out rec, rng *rand.Rand, index int, base, sbase string, unpriv bool)
 				out.Count("interference:pre-existing-"+kindName(e), 1)
 			}
 		})
+	}
+	// disk objects below a directory transition that the snapshot does not
+	// list at all: names with the temporary prefix (scans skip them, so no plan
+	// can know them) and the raw spelling of non-UTF-8 names
+	for _, t := range plan {
+		if t.change.Old == nil || t.change.Old.Kind != core.EntryKind_Directory {
+			continue
+		}
+		var rec func(rel string)
+		rec = func(rel string) {
+			ents, err := os.ReadDir(fullPath(root, rel))
+			if err != nil {
+				return
+			}
+			for _, de := range ents {
+				p := join(rel, de.Name())
+				skip := false
+				for q := range used {
+					if atOrBelow(p, q) {
+						skip = true
+					}
+				}
+				if skip {
+					continue
+				}
+				e := entryAt(snap, p)
+				if e == nil {
+					kind := "pre-existing-unlisted"
+					if strings.HasPrefix(de.Name(), tempPrefix) {
+						kind = "pre-existing-temporary-name"
+					}
+					used[p] = true
+					t.Interf = append(t.Interf, interference{Kind: kind, Path: p, After: observe(fullPath(root, p))})
+					out.Count("interference:"+kind, 1)
+					continue
+				}
+				if e.Kind == core.EntryKind_Directory && de.IsDir() {
+					rec(p)
+				}
+			}
+		}
+		rec(t.Path)
 	}
 	// unprivileged runs: some directories become read-only so that genuine
 	// permission failures occur as well
@@ -448,11 +580,14 @@ func c08One(out rec, rng *rand.Rand, index int, base, sbase string, unpriv bool)
 					witness(map[string]any{"path": it.Path, "now": now}))
 				continue
 			}
+			// a problem may spell a non-UTF-8 name in a valid-UTF-8 form (raw
+			// bytes cannot travel in the problem list)
 			reported := false
 			for _, p := range problems {
-				if atOrBelow(it.Path, p.Path) && atOrBelow(p.Path, t.Path) {
-					reported = true
-					break
+				for _, spelled := range pathSpellings(it.Path) {
+					if atOrBelow(spelled, p.Path) && atOrBelow(p.Path, t.Path) {
+						reported = true
+					}
 				}
 			}
 			if !reported {
@@ -486,6 +621,22 @@ func c08One(out rec, rng *rand.Rand, index int, base, sbase string, unpriv bool)
 	if index%41 == 7 && len(tree) <= 25 {
 		out.Sample(map[string]any{"case": c, "problems": describeProblems(problems)})
 	}
+}
+
+// pathSpellings returns the ways a disk path may legitimately be spelled in a
+// problem: as it is, with invalid bytes replaced by U+FFFD, or with the
+// snapshot's escaped name for non-UTF-8 components.
+func pathSpellings(p string) []string {
+	if utf8.ValidString(p) {
+		return []string{p}
+	}
+	comps := strings.Split(p, "/")
+	for i, c := range comps {
+		if !utf8.ValidString(c) {
+			comps[i] = fsx.EscapeName(c)
+		}
+	}
+	return []string{p, strings.ToValidUTF8(p, "\uFFFD"), strings.Join(comps, "/")}
 }
 
 func stripDirModes(o *obs) {
@@ -606,7 +757,7 @@ func c08Interfere(rng *rand.Rand, root string, snap *core.Entry, t *plannedTrans
 		if os.Remove(full) != nil {
 			return nil
 		}
-		if os.Symlink(fmt.Sprintf("retarget-%d", uniq()), full) != nil {
+		if os.Symlink(fmt.Sprintf([]string{"retarget-%d", "/abs/retarget-%d", "../../../../up-%d", "a/../b/%d"}[rng.Intn(4)], uniq()), full) != nil {
 			return nil
 		}
 		return done("retarget-link", o.path, full)
@@ -615,7 +766,15 @@ func c08Interfere(rng *rand.Rand, root string, snap *core.Entry, t *plannedTrans
 		cf := filepath.Join(full, name)
 		p := join(o.path, name)
 		t.touched = true
-		switch rng.Intn(3) {
+		switch rng.Intn(4) {
+		case 3:
+			// a Mutagen temporary name: scans never list these
+			name = fmt.Sprintf("%sverif-%d", tempPrefix, uniq())
+			cf, p = filepath.Join(full, name), join(o.path, name)
+			if os.WriteFile(cf, fsx.UniqueToken(rng, 30), 0o600) != nil {
+				return nil
+			}
+			return done("new-child-temporary-file", p, cf)
 		case 0:
 			if os.Mkdir(cf, 0o755) != nil {
 				return nil
